@@ -29,7 +29,7 @@ slice expressions that rely on the constructor's invariant.
 
 ASSUMPTIONS = ['64-bit target (usize = u64)', 'slice lengths are at most isize::MAX']
 
-FLOORS = {'R12.1': 2, 'R12.2': 8, 'R12.3': 12, 'R12.4': 4, 'R12.5': 3, 'R12.6': 2, 'R12.7': 3}
+FLOORS = {'R12.1': 2, 'R12.2': 8, 'R12.3': 12, 'R12.4': 4, 'R12.5': 3, 'R12.6': 2, 'R12.7': 1}
 
 MV = 'rough_tlv::decoder::MessageView'
 
@@ -145,7 +145,10 @@ def r12_2(cx):
                 # (a helper function extracted from the closure is seen inlined: the witness Option itself)
                 inl = [n for n in e.walk() if n.kind == 'agg' and n.info.get('variant') == 'Some' and len(n.args) == 1 and n.args[0].strip().kind == 'agg'
                        and len(n.args[0].strip().args) == 3]
-                if (cl or inl) and e.has_call(which):
+                # ... or a private helper function that was kept as a function (it contains the loop)
+                hlp = [c for c in e.calls() if c.info.get('key') in prog.fns and not prog.fns[c.info['key']].d.get('exported')
+                       and prog.fns[c.info['key']].crate == fn.crate and prog.fns[c.info['key']].locals[0].replace(' ', '').endswith('Option<(usize,u32,u32)>')]
+                if (cl or inl or hlp) and e.has_call(which):
                     form, edge = 'nonmonotonic(%s()) is Some' % which.rsplit('::', 1)[-1], ed
         if form is None:
             cx.fail('gate:' + g, fn, fn.loc(pos.bb), 'DecodingError::%s is built on an edge whose guard is not the expected one' % g)
@@ -172,7 +175,8 @@ def r12_2(cx):
         cx.check(unavoidable and not through_fail, 'gate:' + g, fn, fn.loc(b), '%s => Err(%s); Ok is only reachable through the passing edge' % (form, g),
                  fail_detail='Ok(ret) can be reached around the %s gate (unavoidable=%s, reachable through failing edge=%s)' % (g, unavoidable, through_fail))
     # the neighbour comparison is strict: equal offsets / equal tags are allowed, decreasing ones rejected
-    cls = [c for c in prog.closures_of(fn)] + [fn]
+    cls = [c for c in prog.closures_of(fn)] + [fn] + [g for g in prog.callees(fn) if hasattr(g, 'locals') and g.crate == fn.crate
+                                                      and not g.d.get('exported') and g.locals[0].replace(' ', '').endswith('Option<(usize,u32,u32)>')]
     found = False
     for c in cls:
         for pos, st in c.statements():
@@ -199,6 +203,14 @@ def r12_3(cx):
     n = 0
     for fn in sorted(fns, key=lambda f: f.name):
         if not fn.is_acyclic():
+            # a loop puts the function out of reach of the path evaluator: fine if it does no arithmetic that could
+            # overflow or truncate, otherwise the proof obligation cannot be discharged (fail closed)
+            arith = [pos for pos, st in fn.statements() if st['k'] == 'assign' and (
+                (st['rv']['k'] == 'binop' and st['rv']['op'].replace('WithOverflow', '').replace('Unchecked', '') in ('Add', 'Sub', 'Mul', 'Shl'))
+                or (st['rv']['k'] == 'cast' and st['rv']['ck'] == 'IntToInt'))]
+            arith += [c.pos for c in fn.calls() if c.callee.rsplit('::', 1)[-1] in ('wrapping_add', 'wrapping_sub', 'wrapping_mul', 'wrapping_shl')]
+            if arith:
+                cx.unrecognised('loop:' + short(fn.name), fn, fn.loc(arith[0].bb), '%s contains a loop and %d arithmetic operation(s): exactness cannot be evaluated' % (short(fn.name), len(arith)))
             continue
         pe = PathEval(fn, {}, prog=prog)
         pe.run(lambda path, st: None)
@@ -315,7 +327,7 @@ def r12_6(cx):
 def r12_7(cx):
     """`non-decreasing` means in u32 order: the comparison the validation and find_tag use is the little-endian value order (R11.2 tag order)"""
     from . import c11
-    compose(cx, [('R11.2', c11.tag_order)])
+    compose(cx, [('R11.2', c11.tag_order, 3)])
 
 
 RULES = [('R12.1', r12_1), ('R12.2', r12_2), ('R12.3', r12_3), ('R12.4', r12_4), ('R12.5', r12_5), ('R12.6', r12_6), ('R12.7', r12_7)]
